@@ -1,4 +1,5 @@
 import BS.Properties.C13
+import BS.Properties.C13w
 #print axioms BS.Cache.cache_transparent
 #print axioms BS.Cache.served_partial_iff
 #print axioms BS.Cache.served_all_iff
@@ -9,3 +10,11 @@ import BS.Properties.C13
 #print axioms BS.Cache.cached_run_refines
 #print axioms BS.Cache.FilesOK_nil
 #print axioms BS.Cache.demand_depends_on_view
+#print axioms BS.WT.read_spec
+#print axioms BS.WT.run_spec
+#print axioms BS.WT.published_complete
+#print axioms BS.WT.published_iff_eof
+#print axioms BS.WT.transparent
+#print axioms BS.WT.error_never_publishes
+#print axioms BS.WT.abandoned_never_publishes
+#print axioms BS.WT.drained_publishes
